@@ -14,4 +14,7 @@ print(' '.join(sorted({m for e in r.values() if not e.get('disabled') for m in e
 (cd tools/ctskel && cargo build --release --offline)
 cp -n /repo/Cargo.lock harness-cov/Cargo.lock 2>/dev/null || true
 (cd harness-cov && cargo +nightly build --release --offline)
+# C19: the same crate under a second build configuration (-C target-cpu=native)
+cp -n /repo/Cargo.lock harness-native/Cargo.lock 2>/dev/null || true
+(cd harness-native && cargo build --release --offline)
 echo "setup done"
